@@ -71,7 +71,14 @@ namespace embedded_pairing::lqibe {
     void encrypt(Ciphertext& ciphertext, void* symmetric, size_t symmetric_length, const Params& params, const ID& id, void (*hash_fill)(void*, size_t, const void*, size_t), void (*get_random_bytes)(void*, size_t)) {
         bls12_381::PowersOfX rx;
         Scalar r;
-        rx.random(r, get_random_bytes);
+        /*
+         * The encryption exponent must be nonzero: with r = 0 the ciphertext
+         * is the identity and the symmetric key no longer depends on the
+         * identity's secret key.
+         */
+        do {
+            rx.random(r, get_random_bytes);
+        } while (r.is_zero());
 
         G2 rp;
         rp.multiply_frobenius(params.p, rx);
